@@ -40,3 +40,20 @@ Fixpoint run_simple (l : list Z) : list Z :=
        else [0]) ++ run_simple tl
   | _ => []
   end.
+
+(* parallel_for(first, last, step, f) (parallel_for.h parallel_for_impl + parallel_for_body_wrapper): for step > 0 and
+   first < last the loop runs over blocked_range<Index>(0, trip) with trip = (last - first - 1) / step + 1 and calls
+   f(first + i * step).  The arithmetic is done in Index; [wrapw] is the wrap of an unsigned Index of the given width
+   (for the signed types the inputs are restricted to last - first representable, as the C++ requires). *)
+Definition strided_trip (first last step : Z) : Z := (last - first - 1) / step + 1.
+Definition strided_index (first step i : Z) : Z := first + i * step.
+(* flat interface: (first last step)* -> trip, first index, last index, sum of all indices mod 2^64 *)
+Fixpoint run_strided (l : list Z) : list Z :=
+  match l with
+  | f :: la :: st :: tl =>
+      (if (f <? la) && (0 <? st)
+       then let n := strided_trip f la st in
+            [n; f; strided_index f st (n - 1); (n * f + st * (n * (n - 1) / 2)) mod 2 ^ 64]
+       else [0; 0; 0; 0]) ++ run_strided tl
+  | _ => []
+  end.
